@@ -181,7 +181,7 @@ def P13(ctx, facts):
           (c.is_("std::future::Future::poll", "core::future::future::Future::poll", "futures_core::Future::poll") and "checkout::Waiting<" in (c.t.get("argtys") or [""])[0])]
     pcs = f.calls("client::conn::connector::Connector::poll_connector")
     ctx.floor("Checkout::poll|waiter-poll", len(wp), 1, "polls of the waiter in Checkout::poll")
-    ctx.floor("Checkout::poll|poll_connector", len(pcs), 2, "poll_connector calls in Checkout::poll")
+    ctx.floor("Checkout::poll|poll_connector", len(pcs), 1, "poll_connector calls in Checkout::poll")
     for c in pcs:
         ok, w = f.must_pass(0, [c.bb], {x.bb for x in wp})
         ctx.check(ok, "Checkout::poll|waiter-first", "the waiter is polled before the connector on every path",
@@ -191,55 +191,93 @@ def P13(ctx, facts):
         cx = cx_local(f)
         ok = any(any(r.kind == "arg" and getattr(r, "index", None) == cx for r in f.roots(a, through_calls=False)) for a in c.args)
         ctx.check(ok, "Checkout::poll|waiter-gets-cx", "the waiter is polled with the task context", "waiter polled without cx", c.where())
-    sw, regions = arms(f, "CheckoutConnectingProj")
-    if not regions:
-        return ctx.undecided("Checkout::poll|arms", "could not find the match on the projected InnerCheckoutConnecting")
-    # Waiting arm: Ready(Err(Unavailable)), never Pending
-    if "Waiting" in regions:
-        reg = regions["Waiting"]
-        pend = [b for (b, i, s) in f.aggregates("Poll", "Pending") if b in reg]
-        ctx.check(not pend, "Checkout::poll|Waiting-arm-not-pending", "a pure waiter whose channel closed is never left Pending",
-                  "the Waiting arm can return Pending (stranded waiter)", f.where(pend[0]) if pend else None)
-        errs = [b for (b, i, s) in f.aggregates("client::conn::connector::Error", "Unavailable") if b in reg]
-        rets = [x for x in assigns_to_return(f, reg)]
-        ok = bool(errs) and len(rets) == 1 and rets[0][0] == "stmt" and rets[0][2]["r"].get("v") == "Ready"
-        ctx.check(ok, "Checkout::poll|Waiting-arm-unavailable", "the Waiting arm resolves with Ready(Err(Unavailable))",
-                  "the Waiting arm does not resolve with Err(Unavailable)")
-    else:
-        ctx.missing("Checkout::poll|Waiting-arm", "no Waiting arm in Checkout::poll")
-    # after a connector result: close the waiter, set Connected, then register / return Err
+    # ---- the rest as a decision table (abstract evaluation of the expanded unit; see P12): which answer, and which of the
+    # effects {connector polled, waiter closed, state set to Connected, connection registered} happen, for every
+    # (checkout state, waiter outcome, connector outcome).  Merged arms, shared tails, helper functions, combinators and
+    # explicit matches all give the same table.
     sets = [c for c in f.calls("std::pin::Pin::set", "core::pin::Pin::set")]
-    set_connected = set()
     ap = AbsPaths(f)
+    set_connected = set()
     for c in sets:
         v = ap.values_at(c.bb, c.args[1])
         if all(x is not None and x[0] == "variant" and x[1] == "Connected" for x in v):
             set_connected.add(c.bb)
     closes = {c.bb for c in f.calls("client::pool::checkout::Waiting::close")}
-    for c in pcs:
-        ready_edges = [(a, b) for (a, b, lab) in f.edges() if lab is not None and lab.kind == "variant" and lab.variants == {"Ready"} and
-                       f.call_defining(lab.place["l"]) is not None and f.call_defining(lab.place["l"]).bb == c.bb and not any(isinstance(e, dict) and "d" in e for e in lab.place["p"])]
-        if not ready_edges:
-            ctx.undecided("Checkout::poll|connector-ready-edge", "no Ready edge found for poll_connector", c.where())
-            continue
-        for (a, b) in ready_edges:
-            ok, w = f.must_pass(b, f.returns, set_connected)
-            ctx.check(ok, "Checkout::poll|result-sets-Connected",
-                      "every connector result (Ok or Err) marks the checkout Connected before returning, so its drop releases the in-flight marker",
-                      "a connector result can be returned without marking the checkout Connected", c.where(), f.path_desc(w))
     regs = f.calls("client::pool::checkout::register_connected")
-    ctx.floor("Checkout::poll|register_connected", len(regs), 3, "register_connected calls in Checkout::poll")
+    regb = {c.bb for c in regs}
+    pcb = {c.bb for c in pcs}
+    ctx.floor("Checkout::poll|register_connected", len(regs), 1, "register_connected calls in Checkout::poll")
+    ctx.floor("Checkout::poll|state-set-Connected", len(set_connected), 1, "stores of InnerCheckoutConnecting::Connected")
+    ctx.floor("Checkout::poll|waiter-close", len(closes), 1, "Waiting::close calls")
     for c in regs:
         ok, w = f.must_pass(0, [c.bb], closes)
         ctx.check(ok, "Checkout::poll|close-before-register", "the waiter is closed before the new connection is registered with the pool",
                   "register_connected reachable without closing the waiter", c.where(), f.path_desc(w))
-    # Err of the connector is returned as Ready(Err(e)) unchanged
-    n_err = 0
-    for (b, i, s) in f.aggregates("Result", "Err"):
-        rr = f.roots(s["r"]["ops"][0], through_calls=False)
-        if any(r.kind == "call" and r.site.is_("client::conn::connector::Connector::poll_connector") for r in rr):
-            n_err += 1
-    ctx.floor("Checkout::poll|connector-error-returned", n_err, 2, "connector errors propagated as Err(e)")
+    W = {"Connected": ("variant", "Ready", ((0, ("variant", "Connected", ((0, ("const", "FROM_WAITER")),))),)),
+         "Closed": ("variant", "Ready", ((0, ("variant", "Closed", ())),)),
+         "NotReady": ("variant", "Ready", ((0, ("variant", "NotReady", ())),)),
+         "Pending": ("variant", "Pending", ())}
+    K = {"Ok": ("variant", "Ready", ((0, ("variant", "Ok", ((0, ("const", "DIALED")),))),)),
+         "Err": ("variant", "Ready", ((0, ("variant", "Err", ((0, ("const", "E")),))),)),
+         "Pending": ("variant", "Pending", ())}
+    conn_ref = ("const", "CONNECTOR")
+    STATES = {"Waiting": ("variant", "Waiting", ()),
+              "Connected": ("variant", "Connected", ()),
+              "Connecting": ("variant", "Connecting", ((0, conn_ref),)),
+              "ConnectingWithDelayDrop": ("variant", "ConnectingWithDelayDrop", ((0, ("refval", ("variant", "Some", ((0, conn_ref),)))),)),
+              "ConnectingDelayed": ("variant", "ConnectingDelayed", ((0, conn_ref),))}
+    rows = 0
+
+    def show(v):
+        if v is None or v[0] != "variant":
+            return "?"
+        if v[1] == "Ready":
+            inner = dict(v[2]).get(0)
+            if inner is None or inner[0] != "variant":
+                return "Ready(?)"
+            pl = dict(inner[2]).get(0)
+            return "Ready(%s(%s))" % (inner[1], pl[1] if pl is not None and pl[0] == "const" else "_")
+        return v[1]
+
+    for state, sval in STATES.items():
+        for wo in ("Connected", "Closed", "NotReady", "Pending"):
+            dials = state in ("Connecting", "ConnectingWithDelayDrop", "ConnectingDelayed")
+            for ko in (("Ok", "Err", "Pending") if (dials and wo in ("Closed", "NotReady")) else (None,)):
+                oracles = [(r"checkout::Waiting.*::poll$", lambda site, vals, wo=wo: W[wo]),
+                           (r"InnerCheckoutConnecting.*::project$", lambda site, vals, sval=sval: sval)]
+                if ko is not None:
+                    oracles.append((r"Connector.*::poll_connector$", lambda site, vals, ko=ko: K[ko]))
+                try:
+                    outs = AbsPaths(f, oracles=oracles).outcomes(observe_blocks=pcb | closes | set_connected | regb)
+                except AbsPaths.Undecided as e:
+                    ctx.undecided("Checkout::poll|row|%s,%s,%s" % (state, wo, ko), str(e), f.where())
+                    continue
+                rows += 1
+                got = sorted({(show(v), bool(vis & pcb), bool(vis & closes), bool(vis & set_connected), bool(vis & regb)) for (v, vis) in outs})
+                if wo == "Connected":
+                    exp = [("Ready(Ok(FROM_WAITER))", False, False, False, False)]
+                    txt = "a connection received from the waiter is returned as it is; nothing is dialled or registered"
+                elif wo == "Pending":
+                    exp = [("Pending", False, False, False, False)]
+                    txt = "while the waiter is pending the checkout waits (the connector is not polled)"
+                elif state == "Waiting":
+                    exp = [("Ready(Err(_))", False, False, False, False)]
+                    txt = "a pure waiter whose channel closed resolves with an error (never left Pending)"
+                elif state == "Connected":
+                    exp = [("Ready(Ok(_))", False, True, True, True)]
+                    txt = "an already connected checkout closes its waiter, stays Connected and registers its connection"
+                elif ko == "Pending":
+                    exp = [("Pending", True, False, False, False)]
+                    txt = "the connector is polled; while it is pending nothing else happens"
+                elif ko == "Ok":
+                    exp = [("Ready(Ok(_))", True, True, True, True)]
+                    txt = "a dialled connection: waiter closed, state Connected (drop releases the marker), connection registered"
+                else:
+                    exp = [("Ready(Err(E))", True, True, True, False)]
+                    txt = "a failed dial: waiter closed, state Connected (drop releases the marker), the connector's error returned unchanged"
+                ctx.check(got == exp, "Checkout::poll|row|%s,waiter=%s,connector=%s" % (state, wo, ko), txt,
+                          "state %s, waiter %s, connector %s gives %s (answer, connector polled, waiter closed, set Connected, registered); expected %s" % (state, wo, ko, got, exp), f.where())
+    ctx.floor("Checkout::poll|table-rows", rows, 29, "scenarios evaluated")
 
 
 # ------------------------------------------------------------------ P9
